@@ -122,7 +122,7 @@ def build_obs(spec):
 
 def idl_plain(x):
     if isinstance(x, range):
-        return ("range", x.start, x.stop, x.step)
+        return ("range", x.start, x.start + len(x) * x.step, x.step)      # normalised stop
     return [int(i) for i in x]
 
 
